@@ -23,8 +23,9 @@ RULE = ("lists of 1..8 results with arbitrary statistic values and array lengths
         "evo_res on 1..5 archives (generated and from real evo_ape runs) with labels by est_name / "
         "file name, with/without --merge; distinct = digest of the result contents / (archives, "
         "argv); non-trivial = at least two results")
-ASSUMPTIONS = ["mixed case (some arrays equal-length, others not): for the equal-length arrays both "
-               "the per-array mean and the global concatenation are accepted (statement ambiguous)"]
+ASSUMPTIONS = ["'when all inputs have equal array lengths' is read per merge, as evo implements and logs it "
+               "('Appending raw value arrays due to different lengths'): as soon as one array differs in "
+               "length between the inputs, every array is concatenated"]
 STAT_KEYS = ["rmse", "mean", "median", "std", "min", "max", "sse"]
 
 
@@ -158,9 +159,13 @@ def k_merge(run, case):
                           "all inputs have equal array lengths but %s is not their element-wise mean "
                           "(shape %s)" % (k, got.shape), key="merge:not-averaged")
             else:
-                run.check(is_mean or is_cat, "mixed lengths: mean or concatenation", case,
-                          "%s is neither the element-wise mean nor the concatenation" % k,
-                          key="merge:array-wrong")
+                # some other array of these results differs in length: the inputs do not "all
+                # have equal array lengths", so every array is concatenated (one strategy per merge)
+                run.check(is_cat, "mixed lengths: every array concatenated", case,
+                          "the inputs differ in the length of another array, but %s is not the "
+                          "concatenation of the inputs in input order%s" %
+                          (k, " (it is their element-wise mean)" if is_mean else ""),
+                          key="merge:mixed-lengths-not-concatenated")
         else:
             run.check(got.ravel().shape == cat.shape and core.bits_equal(got.ravel(), cat),
                       "unequal lengths: concatenation in input order", case,
